@@ -1699,6 +1699,13 @@ func (t *tScreen) parseRune(buf *bytes.Buffer, evs *[]Event) (bool, bool) {
 		}
 		if nOut != 0 {
 			r, _ := utf8.DecodeRune(utf[:nOut])
+			if r == utf8.RuneError && l < utf8.UTFMax {
+				// Not a character (yet).  The decoder is told that
+				// the input ends here, so it substitutes for what
+				// may be the start of a multi-byte character: try
+				// the longer prefixes, or wait for the rest.
+				continue
+			}
 			if r != utf8.RuneError {
 				mod := ModNone
 				if t.escaped {
@@ -1706,6 +1713,11 @@ func (t *tScreen) parseRune(buf *bytes.Buffer, evs *[]Event) (bool, bool) {
 					t.escaped = false
 				}
 				*evs = append(*evs, NewEventKey(KeyRune, r, mod))
+			} else {
+				// No prefix is a character, drop what the decoder
+				// rejects at the front.
+				t.decoder.Reset()
+				_, nIn, _ = t.decoder.Transform(utf, b[:1], true)
 			}
 			for nIn > 0 {
 				_, _ = buf.ReadByte()
